@@ -304,6 +304,18 @@ def run(ctx, R, tier):
     R.check(bool(dst) and all(rcfg.guarded(n, lambda e: edge_has_fact(e, no_instancing)) for n in dst), "C09-R6", "register|default-only-if-unset",
             "register() defaults the instance mode only if the class has none, own or inherited (hasattr)", regf.loc(),
             "the default ('session', None) is stored although the class inherits a @behavior setting: an inherited 'single'/'percall' class silently becomes per-session")
+    # the creator the daemon will call is the one the application gave: the behavior decorator stores its argument itself (a callable object that happens to be falsy
+    # is still a creator - `x or None` drops it)
+    bsts = [st for st, t, k in stores_in(beh.node) if isinstance(t, ast.Attribute) and t.attr == "_pyroInstancing"]
+    okc = len(bsts) == 1 and isinstance(bsts[0].value, ast.Tuple) and len(bsts[0].value.elts) == 2 and all(isinstance(e, ast.Name) for e in bsts[0].value.elts)
+    if okc:
+        outer = beh.parent
+        outer_params = set(outer.params) if outer is not None else set()
+        okc = all(e.id in outer_params and not any(isinstance(t2, ast.Name) and t2.id == e.id for st2, t2, k2 in stores_in(beh.node)) and
+                  not (outer is not None and any(isinstance(t2, ast.Name) and t2.id == e.id for st2, t2, k2 in stores_in(outer.node))) for e in bsts[0].value.elts)
+    R.check(okc, "C09-R5", "behavior|mode-and-creator-stored-as-given", "the behavior decorator stores exactly the (instance_mode, instance_creator) it was called with", beh.loc(bsts[0]) if bsts else beh.loc(),
+            "`%s`: what is stored is not the decorator's own argument pair (e.g. `creator or None`): a falsy but callable creator is silently replaced and the daemon builds instances "
+            "with clazz() instead" % (unparse(bsts[0]) if bsts else "no store of _pyroInstancing"))
     # who may set the instance mode of a class: the behavior decorator (the user's explicit choice) and register()'s guarded default, nobody else - any other writer
     # (a decorator that "establishes the default", a copy in a base-class hook) overrides what a subclass inherits
     writers = []
